@@ -220,11 +220,25 @@ def free_run(spec, res, rp):
     state = sim.state_from_result(res, i)
     snap = {pop.name: {par.name: float(rp.pv[par][i]) for par in pop.pars} for pop in res.model.pops}
     pv = sim.eval_pars(state, i, snap=snap)
+    covs = {(c["par"], c["pop"]): c for c in ((spec.get("progs") or {}).get("covouts") or [])} if "comps" in spec else {}
     for pop in res.model.pops:
         for par in pop.pars:
             if par.name in pv[pop.name]:
                 a, e = float(rp.pv[par][i]), float(pv[pop.name][par.name])
-                if not (a == e or (np.isnan(a) and np.isnan(e)) or abs(a - e) <= 1e-9 * max(1.0, abs(a), abs(e))):
+                extra = 0.0
+                co = covs.get((par.name, pop.name))
+                if co is not None:
+                    # a program outcome is baseline + sum of weight x (outcome - baseline): near full coverage the terms cancel, so the
+                    # value is exact only relative to the outcomes' magnitude (times the per-step conversion of number / per-year formats)
+                    mag = max([abs(co["base"])] + [abs(v_) for v_ in co["progs"].values()] + [abs(float(v_)) for v_ in (co.get("imp") or {}).values()])
+                    fmt = sim.pars[par.name]["fmt"]
+                    conv = 1.0
+                    if fmt == "number":
+                        conv = sum(sim.size(state, pop.name, l_["src"]) for l_ in sim.links if l_["sp"] == pop.name and l_["par"] == par.name) / sim.dt
+                    elif fmt in ("rate", "probability"):
+                        conv = 1.0 / sim.dt
+                    extra = abs(conv) * mag
+                if not (a == e or (np.isnan(a) and np.isnan(e)) or abs(a - e) <= 1e-9 * max(1.0, abs(a), abs(e), extra if np.isfinite(extra) else 0.0)):
                     raise Violation(ID, "free/parameter", "index %d: parameter %s/%s is %r in atomica but the documented rules applied to atomica's own state give %r (first free-run divergence: %s atomica %r reference %r)" % (i, pop.name, par.name, a, e, k, x, y))
     return ["free:diverged-inconclusive"], {"free run diverges from atomica although every one-step rule agrees (amplified rounding)": 1}
 
